@@ -750,8 +750,8 @@ def print_statistics(entries, options, outfile):
 @click.argument('query', nargs=-1)
 @click.option('--numberify', '-m', is_flag=True,
               help="Numberify the output, removing the currencies.")
-@click.option('--format', '-f', type=click.Choice(FORMATS.keys()), default='text',
-              help="Output format.")
+@click.option('--format', '-f', type=click.Choice(FORMATS.keys()), default=None,
+              help="Output format.  [default: text]")
 @click.option('--output', '-o', type=click.File('w'), default='-',
               help="Output filename.")
 @click.option('--no-errors', '-q', is_flag=True,
@@ -768,7 +768,14 @@ def main(filename, query, numberify, format, output, no_errors):
     """
     # Create the shell.
     interactive = sys.stdin.isatty() and not query
-    shell = BQLShell(filename, output, interactive, True, format, numberify, no_errors)
+    shell = BQLShell(filename, output, interactive, True, format or 'text', numberify, no_errors)
+
+    # The init file is executed when the shell is created: options given
+    # on the command line take precedence over what it sets.
+    if format is not None:
+        shell.settings.format = format
+    if numberify:
+        shell.settings.numberify = True
 
     # Run interactively if we're a TTY and no query is supplied.
     if interactive:
